@@ -13,6 +13,25 @@ namespace Panqec.HollowRhombicCode
 open Panqec.Cubic3D
 open Panqec.Planar3DCode (inE inO inE2 inO1)
 
+theorem sgnX_0 : sgnX 0 = 1 := by decide
+theorem sgnY_0 : sgnY 0 = 1 := by decide
+theorem sgnX_2 : sgnX 2 = 1 := by decide
+theorem sgnY_2 : sgnY 2 = -1 := by decide
+theorem sgnX_3 : sgnX 3 = -1 := by decide
+theorem sgnY_3 : sgnY 3 = 1 := by decide
+theorem sgnZ_23 {a x y z : Int} (ha : a = 2 ∨ a = 3) :
+    sgnZ a x y z = if (x + y + z) % 4 = 0 then -1 else 1 := by
+  unfold sgnZ
+  rcases ha with rfl | rfl
+  · by_cases h : (x + y + z) % 4 = 0 <;> simp [h]
+  · by_cases h : (x + y + z) % 4 = 0 <;> simp [h]
+theorem sgnZ_01 {a x y z : Int} (ha : a = 0 ∨ a = 1) :
+    sgnZ a x y z = if (x + y + z) % 4 = 0 then 1 else -1 := by
+  unfold sgnZ
+  rcases ha with rfl | rfl
+  · by_cases h : (x + y + z) % 4 = 0 <;> simp [h]
+  · by_cases h : (x + y + z) % 4 = 0 <;> simp [h]
+
 section
 variable {Lx Ly Lz : Nat} {z b u v w : Int}
 
